@@ -284,9 +284,7 @@ func runHScenario(sc *hscenario, descr string) []string {
 	close(start)
 	done := make(chan struct{})
 	go func() { wg.Wait(); close(done) }()
-	select {
-	case <-done:
-	case <-time.After(20 * time.Second):
+	if !rc.waitDone(done) {
 		rc.logNow("g0 hang")
 		concStats.hung = true
 	}
@@ -302,8 +300,10 @@ func runHScenario(sc *hscenario, descr string) []string {
 			lines = append(lines, fmt.Sprintf("obs hooks %d", n))
 		}
 	}
+	rc.mu.Lock()
 	concStats.waits += rc.waits
 	concStats.timeouts += rc.tmos
+	rc.mu.Unlock()
 	return lines
 }
 
